@@ -388,3 +388,14 @@ def exit_on_term():
         signal.signal(signal.SIGTERM, _h)
     except Exception:
         pass
+
+
+def corpus_files(prop):
+    """Regression corpus: minimised replay files of violations found earlier (against seeded changes
+    and against defects since repaired).  Each quick/thorough run replays them all on the current
+    tree; a scenario that reproduces is a violation like any other.  Files are data, committed by
+    hand (tools/recheck_seeds.py --save-corpus), never written by a check."""
+    d = os.path.join(VERIF, "corpus", prop)
+    if os.environ.get("VERIF_NO_CORPUS") or not os.path.isdir(d):
+        return []
+    return [os.path.join(d, f) for f in sorted(os.listdir(d)) if f.endswith(".json")]
